@@ -13,6 +13,7 @@ import (
 	"math/rand"
 	"sort"
 	"sync"
+	"sync/atomic"
 
 	"github.com/aclements/go-moremath/fit"
 	"github.com/aclements/go-moremath/graph"
@@ -162,8 +163,11 @@ type pSet struct {
 	invT, invT2       func(float64) float64 // long-lived quantile functions, shared by all goroutines
 	wsHuge, wsTiny    []float64             // weights of extreme magnitude (1/sigma^2 with sigma in ns / in 1e6)
 	gBig              graph.IntGraph        // 3000 nodes: node ids beyond any small fixed-size scratch structure
+	xsBig             []float64             // 40000 values of mixed magnitude: the order of additions shows in the last bits
 	objs              map[string]func() string
 }
+
+var refillCalls int64
 
 func mkSet(rng *rand.Rand) *pSet {
 	p := &pSet{}
@@ -207,6 +211,10 @@ func mkSet(rng *rand.Rand) *pSet {
 	for i := range p.wsHuge {
 		p.wsHuge[i] *= 1e17
 		p.wsTiny[i] *= 1e-13
+	}
+	p.xsBig = make([]float64, 40000)
+	for i := range p.xsBig {
+		p.xsBig[i] = (rng.Float64() - 0.3) * math.Pow(10, float64(rng.Intn(9)-2))
 	}
 	p.gBig = make(graph.IntGraph, 3000)
 	for i := range p.gBig {
@@ -268,7 +276,7 @@ func mkSet(rng *rand.Rand) *pSet {
 		"xs1": func() string { return digestAny(p.xs1) }, "xs2": func() string { return digestAny(p.xs2) },
 		"pos": func() string { return digestAny(p.pos) }, "ws": func() string { return digestAny(p.ws) },
 		"wsHuge": func() string { return digestAny(p.wsHuge) }, "wsTiny": func() string { return digestAny(p.wsTiny) },
-		"gBig": func() string { return digestAny(graph.Graph(p.gBig)) },
+		"gBig": func() string { return digestAny(graph.Graph(p.gBig)) }, "xsBig": func() string { return digestAny(p.xsBig) },
 		"samp": func() string { return digSample(&p.samp) }, "wsamp": func() string { return digSample(&p.wsamp) },
 		"sortMe": func() string { return digSample(&p.sortMe) }, "swsamp": func() string { return digSample(&p.swsamp) },
 		"linRev": func() string { return fmt.Sprintf("%+v", p.linRev) }, "rev": func() string { return digestAny(p.rev) },
@@ -419,6 +427,29 @@ func purityEntries() []pEntry {
 		{"fit.PolynomialRegression(tiny weights)", []string{"xs1", "pos", "wsTiny"}, "", false, func(p *pSet) any {
 			r := fit.PolynomialRegression(p.xs1, p.pos, p.wsTiny, 1)
 			return []any{r.Coefficients, r.F(1.5)}
+		}},
+		{"vec.Sum(40000)", []string{"xsBig"}, "", false, func(p *pSet) any { return vec.Sum(p.xsBig) }},
+		{"Sample.Sum/Mean(40000)", []string{"xsBig"}, "", false, func(p *pSet) any {
+			s := stats.Sample{Xs: p.xsBig}
+			return []any{s.Sum(), s.Mean(), s.Weight()}
+		}},
+		// equal arguments, different history: every other call evaluates the same VALUES in a buffer that held other data
+		// (and was queried) a moment ago, the remaining calls in a freshly allocated slice
+		{"Quantile(refilled buffer | fresh slice)", nil, "", false, func(p *pSet) any {
+			a := []float64{9, 1, 8, 2, 7, 3, 6, 4, 5, 50, 0.5, 12}
+			b := []float64{-3, 30, -1, 10, 0, 20, 5, 15, 2.5, 7, 25, 1}
+			var buf []float64
+			if atomic.AddInt64(&refillCalls, 1)%2 == 0 {
+				buf = append([]float64{}, a...)
+				_ = stats.Sample{Xs: buf}.Quantile(0.3)
+				_ = stats.Sample{Xs: buf}.IQR()
+				copy(buf, b)
+			} else {
+				buf = append([]float64{}, b...)
+			}
+			s := stats.Sample{Xs: buf}
+			_, lo, hi := stats.QuantileCI(len(buf), 0.5, 0.9).SampleCI(s)
+			return []any{s.Quantile(0.3), s.Quantile(0.5), s.IQR(), lo, hi, stats.BandwidthScott(s)}
 		}},
 		{"graphalg.PreOrder(big)", []string{"gBig"}, "", false, func(p *pSet) any { return graphalg.PreOrder(p.gBig, 0) }},
 		{"graphalg.PostOrder(big)", []string{"gBig"}, "", false, func(p *pSet) any { return graphalg.PostOrder(p.gBig, 0) }},
